@@ -12,6 +12,7 @@ Own helper of engines/c15.py and engines/c16.py:
 Python never judges: every record goes to TLC (IRRoundTrip_Eval, IR.tla); this file only names the
 violations TLC reports (keys) from the `clause` / `diag` variables of the failing state.
 """
+import contextlib
 import io
 import random
 import struct
@@ -311,14 +312,6 @@ class FB:
     def alloc(self, size, align):
         a = self.emit(self.ir.Alloc(self.nm("alloc"), size, align))
         return a, self.emit(self.ir.AddressOf(a, self.nm("ap")))
-
-
-def _wrap(ty, v):
-    b = BITS[ty]
-    v &= (1 << b) - 1
-    if ty[0] == "i" and v >> (b - 1):
-        v -= 1 << b
-    return v
 
 
 FLOATS = [0.0, -0.0, 1.0, -1.0, 0.5, -2.25, 0.1, 1.0 / 3.0, 123456789.125, 3.0e10, 1e16, 1e20, -1e20, 1e-7, -1e-7,
@@ -743,7 +736,6 @@ class Item:
 
 
 def corpus(ctx, n_irgen, n_c):
-    from engines.c02 import int_vectors  # noqa: F401  (shared helper; see ENGINE_GUIDE)
     from ppci import api
 
     from . import irgen
@@ -759,7 +751,8 @@ def corpus(ctx, n_irgen, n_c):
     for key, src, fn, ptys in C_SOURCES:
         for lvl in (None, "2"):
             try:
-                m = optcorpus.compile_c(src, "x86_64")
+                with contextlib.redirect_stdout(io.StringIO()):     # front-end warnings are not our output
+                    m = optcorpus.compile_c(src, "x86_64")
                 if lvl:
                     api.optimize(m, level=lvl)
             except Exception:
@@ -787,7 +780,8 @@ def corpus(ctx, n_irgen, n_c):
         ext = optcorpus.ext_stubs(prog, prng)
         for lvl in (None, "2"):
             try:
-                m = optcorpus.compile_c(src, "x86_64")
+                with contextlib.redirect_stdout(io.StringIO()):     # front-end warnings are not our output
+                    m = optcorpus.compile_c(src, "x86_64")
                 if lvl:
                     api.optimize(m, level=lvl)
             except Exception:
@@ -903,7 +897,9 @@ def _well_formed(m):
 def records_for(ctx, fmt, items):
     recs = []
     for it in items:
-        if not _well_formed(it.m):
+        # front-end output that ppci's own verifier rejects is outside "every well-formed module" (C03's business);
+        # hand-built and irgen modules are well-formed by construction and are never skipped
+        if it.key.startswith(("cprog:", "c:")) and not _well_formed(it.m):
             ctx.cov["skipped_not_wellformed"] = ctx.cov.get("skipped_not_wellformed", 0) + 1
             continue
         try:
@@ -1105,7 +1101,8 @@ def behaviour_cases(ctx, recs, nvec, diffs=None):
                 continue
             argv = [[project_ir.limbs(v, TY_BYTES[t]) for v, t in zip(vec, ptys)] for vec in vecs]
             cases.append({"id": "%s:%s" % (it.key, fn), "mods": [r["b1"], r["b2"]], "labels": ["original", "re-read"],
-                          "fn": fn, "argv": argv, "vecs": vecs, "ext": it.ext, "fuel": 4000, "src": it.src, "ri": ri})
+                          "fn": fn, "argv": argv, "vecs": vecs, "ext": it.ext, "fuel": 3000 if ctx.tier == "thorough" else 800,
+                          "src": it.src, "ri": ri})
     return cases
 
 
